@@ -52,6 +52,7 @@ class Hooks:
         self.policy = policy
         self.supplies = supplies or {}
         self.depth = 0
+        self.runaway = False
 
     def enter(self):
         self.depth += 1
@@ -65,6 +66,9 @@ class Hooks:
         self.trace.append(("error", type(e).__name__, e))
 
     def bind(self, name, value):
+        if len(self.trace) > 20000:
+            self.runaway = True
+            raise MemoryError("reference trace overflow (runaway loop)")
         if self.policy is not None:
             value = self.policy(name, value, self)
         self.trace.append(("bind", name, value))
